@@ -1,4 +1,13 @@
-import Pulsar.Typing
-import Pulsar.Proofs.Runtime
-namespace Pulsar
-end Pulsar
+/-
+  Pulsar.Proofs.Decode — helper lemmas about the generated unmarshal closure (C06, C14).
+  Split over several files; this module re-exports them.
+-/
+import Pulsar.Proofs.DecodeReaders
+import Pulsar.Proofs.DecodeNoPanic
+import Pulsar.Proofs.DecodeFuel
+import Pulsar.Proofs.DecodeNoNil
+import Pulsar.Proofs.DecodeDiscard
+import Pulsar.Proofs.DecodeDepth
+import Pulsar.Proofs.DecodeDeep
+import Pulsar.Proofs.MarshalTotal
+import Pulsar.Proofs.DecodeGood
